@@ -138,9 +138,28 @@ fn slurp(fd: i32) -> Vec<u8> {
     out
 }
 
+static CAP_COUNTER: AtomicU64 = AtomicU64::new(0);
+
+/// When SIM_CAPTURE_DIR is set (classify subprocesses), stderr captures are
+/// real files so that the parent can read what the runtime printed when the
+/// process died (allocation failure, stack overflow).
+fn err_capture_fd() -> i32 {
+    if let Ok(dir) = std::env::var("SIM_CAPTURE_DIR") {
+        let n = CAP_COUNTER.fetch_add(1, Ordering::SeqCst);
+        let path = format!("{}/cap-{}-{}.err", dir, std::process::id(), n);
+        if let Ok(c) = std::ffi::CString::new(path) {
+            let fd = unsafe { libc::open(c.as_ptr(), libc::O_RDWR | libc::O_CREAT | libc::O_TRUNC, 0o644) };
+            if fd >= 0 {
+                return fd;
+            }
+        }
+    }
+    memfd("sim-err")
+}
+
 impl Capture {
     pub fn new() -> Capture {
-        Capture { out_fd: memfd("sim-out"), err_fd: memfd("sim-err") }
+        Capture { out_fd: memfd("sim-out"), err_fd: err_capture_fd() }
     }
 
     /// Make this capture the process's fd 1 / fd 2. Called with the baton held.
